@@ -303,36 +303,31 @@ open SerfModel.SourceShape SerfModel.Gen
 (`delTag`, `keep`); then the set tags are copied over it (`mapsCopy`); that map goes to
 `Agent.SetTags` (seeded C30-b used the live map when nothing is deleted) -/
 theorem C30_src_handle_tags :
-    AgentTagsSrc.tagsBindings = ["tags := make(map[string]string)"] ∧
-    hasBlock ["tags := make(map[string]string)", "for key, val := range i.agent.SerfConfig().Tags {", "var delTag bool",
-      "for _, delkey := range req.DeleteTags {", "delTag = (delTag || delkey == key)", "}", "if !delTag {",
-      "tags[key] = val", "}", "}", "maps.Copy(tags, req.Tags)", "err := i.agent.SetTags(tags)"] AgentTagsSrc.handleTags = true := by
+    AgentTagsSrc.tagsBindings = ["v5 := make(map[string]string)"] ∧
+    hasBlock ["v5 := make(map[string]string)", "for v6, v7 := range v0.agent.SerfConfig().Tags {", "var v8 bool", "for _, v9 := range v3.DeleteTags {", "v8 = (v8 || v9 == v6)", "}", "if !v8 {", "v5[v6] = v7", "}", "}", "maps.Copy(v5, v3.Tags)", "v10 := v0.agent.SetTags(v5)"] AgentTagsSrc.handleTags = true := by
   decide
 
 /-- `setTags` / `fits` / `restart`: Serf checks the encoded size (`>` against MetaMaxSize) BEFORE
 installing the map and updating the node; `serf.Create` applies the same check at start -/
 theorem C30_src_serf_set_tags :
-    AgentTagsSrc.serfSetTags = ["if len(s.encodeTags(tags)) > memberlist.MetaMaxSize {",
-      "return fmt.Errorf(\"Encoded length of tags exceeds limit of %d bytes\", memberlist.MetaMaxSize)", "}",
-      "s.config.Tags = tags", "return s.memberlist.UpdateNode(s.config.BroadcastTimeout)"] ∧
-    AgentTagsSrc.createTagChecks = ["if len(serf.encodeTags(conf.Tags)) > memberlist.MetaMaxSize {"] := by decide
+    AgentTagsSrc.serfSetTags = ["if len(v0.encodeTags(v1)) > memberlist.MetaMaxSize {", "return fmt.Errorf(\"Encoded length of tags exceeds limit of %d bytes\", memberlist.MetaMaxSize)", "}", "v0.config.Tags = v1", "return v0.memberlist.UpdateNode(v0.config.BroadcastTimeout)"] ∧
+    AgentTagsSrc.createTagChecks = ["if len(v3.encodeTags(v0.Tags)) > memberlist.MetaMaxSize {"] := by decide
 
 /-- `encodeTags`: the magic byte, then the map through go-msgpack's DEFAULT handle (legacy raw
 string headers, no str8), for protocol ≥ 3; constants equal the model's -/
 theorem C30_src_constants :
     AgentTagsSrc.tagMagicByte = SerfModel.AgentTags.tagMagicByte.toNat ∧
     AgentTagsSrc.metaMaxSize = SerfModel.AgentTags.metaMaxSize ∧
-    hasBlock ["var buf bytes.Buffer", "buf.WriteByte(tagMagicByte)", "enc := codec.NewEncoder(&buf, &codec.MsgpackHandle{})",
-      "if err := enc.Encode(tags); err != nil {"] AgentTagsSrc.encodeTags = true ∧
-    hasBlock ["if s.ProtocolVersion() < 3 {", "role := tags[\"role\"]", "return []byte(role)", "}"] AgentTagsSrc.encodeTags = true := by
+    hasBlock ["var v3 bytes.Buffer", "v3.WriteByte(255)", "v4 := codec.NewEncoder(&v3, &codec.MsgpackHandle{})", "if v5 := v4.Encode(v1); v5 != nil {"] AgentTagsSrc.encodeTags = true ∧
+    hasBlock ["if v0.ProtocolVersion() < 3 {", "v2 := v1[\"role\"]", "return []byte(v2)", "}"] AgentTagsSrc.encodeTags = true := by
   decide
 
 /-- the tags file is the JSON of exactly the map handed over, and is read back into the tags of
 the configuration (the file is modelled as the map written) -/
 theorem C30_src_tags_file :
-    once "encoded, err := json.MarshalIndent(tags, \"\", \" \")" AgentTagsSrc.writeTagsFile = true ∧
-    once "if err = os.WriteFile(a.agentConf.TagsFile, encoded, 0600); err != nil {" AgentTagsSrc.writeTagsFile = true ∧
-    once "if err := json.Unmarshal(tagData, &a.conf.Tags); err != nil {" AgentTagsSrc.loadTagsFile = true ∧
+    once "v2, v3 := json.MarshalIndent(v1, \"\", \" \")" AgentTagsSrc.writeTagsFile = true ∧
+    once "if v3 = os.WriteFile(v0.agentConf.TagsFile, v2, 0600); v3 != nil {" AgentTagsSrc.writeTagsFile = true ∧
+    once "if v5 := json.Unmarshal(v3, &v0.conf.Tags); v5 != nil {" AgentTagsSrc.loadTagsFile = true ∧
     AgentTagsSrc.writeTagsFile.length = 8 ∧ AgentTagsSrc.loadTagsFile.length = 13 := by decide
 
 end Src
